@@ -1138,7 +1138,14 @@ func (f ForkId) forkId(buf *strings.Builder, start int) (bool, error) {
 					part.Id.GoString(),
 			}
 		} else if alen == 0 {
-			return forkIndex == 0, nil
+			if forkIndex == 0 {
+				return true, nil
+			}
+			// An empty inner collection.  The fork is identified by
+			// the indices of the enclosing calls; without them every
+			// such fork but the first would have an empty id, and
+			// the stage directory itself as its directory.
+			return false, f.writeForkIndex(buf, forkDim, forkIndex)
 		}
 		if err := r.Allow(part.Id); err != nil {
 			return forkIndex == 0, err
